@@ -270,3 +270,49 @@ func TestGovcReplayGetClientStale(t *testing.T) {
 `
 	return "proc/redis", "TestGovcReplayGetClientStale", src, true
 }
+
+func init() {
+	replayGens["redis.newError"] = replayErrorReplyLineBreak
+}
+
+// an error reply built from client-controlled text containing CR LF is written as more than one frame
+func replayErrorReplyLineBreak(rc *ReplayCtx) (string, string, string, bool) {
+	if rc.o.Kind != "post" {
+		return "", "", "", false
+	}
+	src := `package redis
+
+import (
+	"bytes"
+	"io"
+	"testing"
+)
+
+func TestGovcReplayErrorReplyLineBreak(t *testing.T) {
+	// what handleRequest answers to the unknown command "foo\r\nbar"
+	reply := newError("ERR unsupported command 'foo\r\nbar'")
+	var wire bytes.Buffer
+	enc := newEncoder(&wire, 4096)
+	if err := enc.Encode(reply); err != nil {
+		t.Skip(err)
+	}
+	enc.Flush()
+	dec := newDecoder(bytes.NewReader(wire.Bytes()), 4096)
+	frames := 0
+	for {
+		_, err := dec.Decode()
+		if err == io.EOF {
+			break
+		}
+		frames++
+		if err != nil || frames > 4 {
+			break
+		}
+	}
+	if frames != 1 {
+		t.Fatalf("REPLAY-VIOLATION one error reply is read by the client as %d frames (%q): a command name containing CR LF desynchronises the reply stream", frames, wire.String())
+	}
+}
+`
+	return "proc/redis", "TestGovcReplayErrorReplyLineBreak", src, true
+}
